@@ -849,6 +849,12 @@ class X12ContextReader(object):
                     self._reset_counter_to_gs_counts()
                     tpath = '/ISA_LOOP/GS_LOOP/GS'
                     self.x12_map_node = cur_map.getnodebypath(tpath)
+                    # the GS is located without the walker: spell out the loops left and entered
+                    loop = pop_to_parent_loop(orig_node)
+                    while loop.is_loop() and loop.id != 'ISA_LOOP':
+                        pop_loops.append(loop)
+                        loop = pop_to_parent_loop(loop)
+                    push_loops = [self.x12_map_node.parent]
                     #self.walker.forceWalkCounterToLoopStart('/ISA_LOOP/GS_LOOP', '/ISA_LOOP/GS_LOOP/GS')
                 elif seg_id == 'BHT':
                     if vriic in ('004010X094', '004010X094A1'):
